@@ -360,6 +360,11 @@ func checkC02(r *core.Run) {
 		{"end-tag-text-inside-start-tag", `<script async </script >` + S + `</script>`, []string{c02Marker}, false},
 		{"end-tag-text-inside-start-tag", `<style media=</style>` + S + `</style>`, []string{c02Marker}, false},
 		{"end-tag-text-inside-start-tag", `<script data-x=a</script>` + S + `</script>`, []string{c02Marker}, false},
+		// a callee that ends the attribute it was called in and opens a URL attribute: the static text it wrote there is
+		// the prefix of what follows at every call site
+		{"callee-ends-attribute-and-opens-url", `{{define "ct"}}" href="ja{{end}}<a title="ja{{template "ct"}}">x</a><a title="/x{{template "ct"}}` + S + `">y</a>`, []string{"vascript:alert(1)"}, false},
+		{"callee-ends-attribute-and-opens-url", `{{define "ct"}}" href="java{{end}}<a title="java{{template "ct"}}">x</a><a title="/x?{{template "ct"}}` + S + `">y</a>`, []string{"script:alert(1)"}, false},
+		{"callee-ends-attribute-and-opens-url", `{{define "ct"}}' src='ja{{end}}<img alt='ja{{template "ct"}}'><img alt='//{{template "ct"}}` + S + `'>`, []string{"vascript:alert(1)"}, false},
 		{"script-type-attribute", `<script type="text/template">` + S + `</script>`, []string{c02Marker}, false},
 		{"script-type-attribute", `<script type="text/javascript" type="text/plain">` + S + `</script>`, []string{c02Marker}, false},
 		{"script-type-attribute", `<script type="module">` + S + `</script>`, []string{c02Marker}, false},
